@@ -14,7 +14,8 @@ RULE = ('each trajectory set x every applicable container form {list of ints, li
         'signed widths (first array narrowest, >127 states included), StateTraj object} x dtypes int8..int64 (labels permitting) x {function, method}: '
         'all forms must give the single answer of the Lean model; plus a strictly increasing relabelling (incl. shifts making labels negative, e.g. '
         'x-2) and an arbitrary bijective relabelling: states / cored trajectories / pathways relabelled, matrices, waiting times and similarities unchanged '
-        '(rows and columns permuted for bijections). Functions: estimate, coring, md waiting times / paths, similarity. Non-trivial = >=2 '
+        '(rows and columns permuted for bijections). Functions: estimate, coring, md waiting times / paths, similarity; Markov-chain propagation on '
+        'deterministic (cyclic) models, where the chain is known without assumptions on the generator. Non-trivial = >=2 '
         'representations compared; distinct by (set, function, relabelling).')
 RELATION = 'every representation of the same trajectories gives canon(real) = Lean model output; relabelled input gives the relabelled model output'
 SUB = {'estimate': c01, 'coring': c05, 'md_wt': c06, 'md_paths': c06}
@@ -41,8 +42,19 @@ def cases(tier, rng, boost=1):
     yield dict(c01._mk([[-128, -2, 127, -2, -128, 127, 127, -2]], 1, src='corpus', cls='narrow_wide'), fn='estimate', relabel=None,
                forms=['narrow_arrays', 'list_of_arrays', 'list_of_lists'])
     for trajs, form, tag in gen.special_sets(core.Rng(17)):
-        if form == 'per_array_narrow':
+        if form in ('per_array_narrow', 'narrow_arrays'):
             yield dict(c01._mk(trajs, 1, form=form, src='corpus', cls=tag), fn='estimate', relabel=None, forms=[form, 'list_of_arrays', 'list_of_lists'])
+    # sampling functions on DETERMINISTIC models (cyclic trajectories: every row of T is a unit vector), so the chain is known without
+    # any assumption on the generator: raw containers and a constructed object must give the same, correct chain — also when other data
+    # of the same lag time were analysed just before in the same process
+    drng = core.Rng(23)
+    for k in range(16):
+        p_ = drng.randint(2, 5)
+        labs = sorted(drng.sample([x for x in range(-5, 40) if x != -1], p_))      # start=-1 is documented as "random start"
+        order = labs[:]
+        drng.shuffle(order)
+        yield {'op': 'mcmc_det', 'fn': 'mcmc_det', 'cycle': order, 'reps': drng.randint(3, 6), 'lag': 1, 'steps': drng.randint(5, 40),
+               'relabel': None, 'src': 'corpus-det', 'forms': ['list_of_lists', 'list_of_arrays', 'statetraj'], 'trajs': [order * 3]}
     n = {'quick': 150, 'thorough': 2000, 'search': 500}[tier] * boost
     for _ in range(n):
         ns = rng.randint(2, 6)
@@ -88,8 +100,30 @@ def _to_form(trajs, form, rng):
     return gen.to_form(trajs, form, rng)
 
 
+def _real_mcmc_det(case):
+    import msmhelper as mh
+    from msmhelper.msm import timescales as ts
+    cyc = case['cycle']
+    traj = cyc * case['reps']
+    start = cyc[case['steps'] % len(cyc)]
+    k0 = cyc.index(start)
+    expected = [cyc[(k0 + i) % len(cyc)] for i in range(case['steps'])]
+    res = {}
+    for form in case['forms']:
+        arg = gen.to_form([traj], form, core.Rng(3))
+        try:
+            chain = ts.propagate_MCMC(arg, case['lag'], case['steps'], start=start)
+            res[form] = [int(x) for x in chain]
+        except Exception as e:  # noqa
+            res[form] = 'err:' + core.err_name(e)
+    same = all(v == expected for v in res.values())
+    return {'ok': {'expected': expected, 'by_form': res if not same else 'all-equal'}, 'forms_agree': same}
+
+
 def real(case):
     """run the function once per form; all canonical results must coincide; return that single result (or the disagreement)"""
+    if case['fn'] == 'mcmc_det':
+        return _real_mcmc_det(case)
     sub = SUB[case['fn']]
     results = {}
     for form in case['forms']:
@@ -121,15 +155,21 @@ def real(case):
 
 
 def request(case, obs):
+    if case['fn'] == 'mcmc_det':
+        return {'op': 'ping'}
     o = {k: v for k, v in obs.items() if k in ('ok', 'err')}
     return SUB[case['fn']].request(case, o)
 
 
 def agree(case, obs, reply):
+    if case['fn'] == 'mcmc_det':
+        return bool(obs.get('forms_agree'))
     return obs.get('forms_agree', False) and SUB[case['fn']].agree(case, {k: v for k, v in obs.items() if k in ('ok', 'err')}, reply)
 
 
 def holds(case, obs, reply):
+    if case['fn'] == 'mcmc_det':
+        return bool(obs.get('forms_agree'))
     return obs.get('forms_agree', False) and SUB[case['fn']].holds(case, {k: v for k, v in obs.items() if k in ('ok', 'err')}, reply)
 
 
@@ -138,6 +178,8 @@ def nontrivial(case, obs, reply):
 
 
 def key(case):
+    if case['fn'] == 'mcmc_det':
+        return ['mcmc_det', case['cycle'], case['reps'], case['steps']]
     return [case['fn'], case['relabel'], SUB[case['fn']].key(case)]
 
 
